@@ -382,7 +382,17 @@ func (o *optimizer) etaReduction() {
 			return false
 		}
 		call, _ := ret.Results[0].(*ast.CallExpr)
-		return call != nil && call.Ellipsis == token.NoPos
+		if call == nil || call.Ellipsis != token.NoPos {
+			return false
+		}
+		// func(xs ...any) int { return f(xs) } passes the slice as ONE arg of the variadic f,
+		// though lit and f have the same type
+		if ps := fun.Type.Params.List; len(ps) > 0 {
+			if _, variadic := ps[len(ps)-1].Type.(*ast.Ellipsis); variadic {
+				return false
+			}
+		}
+		return true
 	}
 
 	// $fun replaces the func lit, so it must have the very same type,
